@@ -627,7 +627,7 @@ theorem mat_ops_spec [Div R] (A B : Mat R) (k a : R) (i j : Nat) :
   · simp [mplus, ewSemMat_e, Gen.fmsig_plus, ewVal, ewOpd, zeroMat]
   · simp [mminus, ewSemMat_e, Gen.fmsig_minus, ewVal, ewOpd, zeroMat]
   · simp [mtimes, ewSemMat_e, Gen.fmsig_times, ewVal, ewOpd, zeroMat, mul_comm]
-  · simp [mltimes, ewSemMat_e, Gen.fmsig_ltimes, ewVal, ewOpd, zeroMat]
+  · simp [mltimes, ewSemMat_e, Gen.fmsig_ltimes, ewVal, ewOpd, zeroMat, mul_comm]
 
 /-- the results of unary minus and of the FieldMatrix operators have the shape of the operand -/
 theorem mat_ops_shape [Div R] (A B : Mat R) (k : R) :
